@@ -142,8 +142,49 @@ def gen_children(rnd, depth, max_depth):
     return out
 
 
-def gen_tree(rnd, max_depth=4):
-    return ("D", "root", gen_children(rnd, 1, max_depth))
+def gen_tree(rnd, max_depth=4, links=0.35):
+    tree = ("D", "root", gen_children(rnd, 1, max_depth))
+    if rnd.random() < links:
+        add_links(rnd, tree)
+    return tree
+
+
+def add_links(rnd, tree):
+    """1-3 symbolic links to FILES: ("L", name, target, bytes) with `target` = components relative to the root
+    (a file anywhere in the tree - also in hidden or excluded folders - or `../outside/<name>` outside the
+    root) and `bytes` = the target's content. For scan and check a link is a file of its own: keyed / named by
+    ITS path, language by ITS name, content through the link. Links to directories are not generated
+    (os.walk does not follow them; the tree model has no notion of them)."""
+    files = all_files(tree)
+    dirs = all_dirs(tree)
+    outside = {}
+    for _ in range(rnd.choice([1, 1, 2, 3])):
+        if files and rnd.random() < 0.8:
+            tcomps, data = rnd.choice(files)
+            target = list(tcomps)
+        else:
+            name = rnd.choice(STEMS) + rnd.choice(SUPPORTED_EXT)
+            data = outside.setdefault(name, gen_content(rnd, name))       # two links to one outside file share its content
+            target = ["..", "outside", name]
+        ext = os.path.splitext(target[-1])[1]
+        lname = rnd.choice(STEMS) + (ext if ext in SUPPORTED_EXT + UNSUPPORTED_EXT and rnd.random() < 0.8 else rnd.choice(SUPPORTED_EXT))
+        node = tree
+        for c in rnd.choice(dirs):
+            node = [ch for ch in node[2] if ch[0] == "D" and ch[1] == c][0]
+        if lname in [ch[1] for ch in node[2]]:
+            continue
+        node[2].append(("L", lname, target, data))
+
+
+def all_links(node, pre=()):
+    """{link path components: target components (relative to the root, may start with '..')}"""
+    out = {}
+    for ch in node[2]:
+        if ch[0] == "L":
+            out[pre + (ch[1],)] = tuple(ch[2])
+        elif ch[0] == "D":
+            out.update(all_links(ch, pre + (ch[1],)))
+    return out
 
 
 def all_files(node, pre=()):
@@ -152,6 +193,8 @@ def all_files(node, pre=()):
     for ch in node[2]:
         if ch[0] == "F":
             out.append((pre + (ch[1],), ch[2]))
+        elif ch[0] == "L":
+            out.append((pre + (ch[1],), ch[3]))
         else:
             out.extend(all_files(ch, pre + (ch[1],)))
     return out
@@ -165,15 +208,26 @@ def all_dirs(node, pre=()):
     return out
 
 
-def materialize(node, path):
+def materialize(node, path, root=None):
+    root = root or path
     os.makedirs(path, exist_ok=True)
+    later = []
     for ch in node[2]:
         p = os.path.join(path, ch[1])
         if ch[0] == "F":
             with open(p, "wb") as f:
                 f.write(ch[2])
+        elif ch[0] == "L":
+            later.append((p, ch))
         else:
-            materialize(ch, p)
+            materialize(ch, p, root)
+    for p, ch in later:
+        target = os.path.normpath(os.path.join(root, *ch[2]))
+        if ch[2][0] == "..":                       # a target outside the root: it exists only because of this link
+            os.makedirs(os.path.dirname(target), exist_ok=True)
+            with open(target, "wb") as f:
+                f.write(ch[3])
+        os.symlink(os.path.relpath(target, path), p)
 
 
 def snapshot(path, name="root", skip=()):
@@ -196,12 +250,16 @@ def snapshot(path, name="root", skip=()):
 def tree_to_json(node):
     if node[0] == "F":
         return ["F", node[1], node[2].decode("latin-1")]
+    if node[0] == "L":
+        return ["L", node[1], list(node[2]), node[3].decode("latin-1")]
     return ["D", node[1], [tree_to_json(c) for c in node[2]]]
 
 
 def tree_from_json(j):
     if j[0] == "F":
         return ("F", j[1], j[2].encode("latin-1"))
+    if j[0] == "L":
+        return ("L", j[1], list(j[2]), j[3].encode("latin-1"))
     return ("D", j[1], [tree_from_json(c) for c in j[2]])
 
 
@@ -212,11 +270,131 @@ def prune(node, keep, pre=()):
         if c[0] == "F":
             if "/".join(pre + (c[1],)) in keep:
                 ch.append(c)
+        elif c[0] == "L":
+            if "/".join(pre + (c[1],)) in keep:
+                ch.append(("F", c[1], c[3]))           # in the twin a kept link is a plain file with the same bytes
         else:
             sub = prune(c, keep, pre + (c[1],))
             if sub[2]:
                 ch.append(sub)
     return ("D", node[1], ch)
+
+
+# ------------------------------------------------------------------ mutations between two scans (state probe)
+
+def files_dict(tree):
+    return {tuple(c): d for c, d in all_files(tree)}
+
+
+def tree_from_files(d, dirs=()):
+    """("D", "root", ...) holding the given files (and the given, possibly empty, directories)"""
+    root = ("D", "root", [])
+
+    def descend(node, name):
+        for ch in node[2]:
+            if ch[0] == "D" and ch[1] == name:
+                return ch
+        ch = ("D", name, [])
+        node[2].append(ch)
+        return ch
+    for comps in dirs:
+        n = root
+        for c in comps:
+            n = descend(n, c)
+    for comps, data in d.items():
+        n = root
+        for c in comps[:-1]:
+            n = descend(n, c)
+        n[2].append(("F", comps[-1], data))
+    return root
+
+
+def gen_mutations(rnd, tree):
+    """what happens to a codebase between two scans: a file is copied or renamed to ANOTHER extension (often
+    another language) in the same or another directory, a new (possibly empty) file appears, a file gets the
+    content of another file or is emptied, a file disappears"""
+    d = files_dict(tree)
+    dirs = all_dirs(tree)
+    taken = set(d) | {tuple(x) for x in dirs}
+    ops = []
+    for _ in range(rnd.choice([1, 2, 2, 3])):
+        r = rnd.random()
+        names = sorted(d)
+        if names and r < 0.45:
+            src = rnd.choice(names)
+            # names stay inside the generator's pool: <stem of the pool><supported extension> (Pygments maps
+            # `Makefile.js` to the Makefile lexer, `Dockerfile.py` to Docker: names outside the property's pool)
+            stem = os.path.splitext(src[-1])[0] if os.path.splitext(src[-1])[0] in STEMS else rnd.choice(STEMS)
+            dst = tuple(rnd.choice(dirs) if rnd.random() < 0.4 else src[:-1]) + (stem + rnd.choice(SUPPORTED_EXT),)
+            if dst in taken:
+                continue
+            op = rnd.choice(["copy", "copy", "move"])
+            ops.append([op, list(src), list(dst)])
+            d[dst] = d[src]; taken.add(dst)
+            if op == "move":
+                del d[src]
+        elif r < 0.7:
+            dst = tuple(rnd.choice(dirs)) + (rnd.choice(STEMS) + rnd.choice(SUPPORTED_EXT),)
+            if dst in taken:
+                continue
+            data = b"" if rnd.random() < 0.5 else gen_content(rnd, dst[-1])
+            ops.append(["write", list(dst), data.decode("latin-1")])
+            d[dst] = data; taken.add(dst)
+        elif names and r < 0.9:
+            dst = rnd.choice(names)
+            data = b"" if rnd.random() < 0.3 else d[rnd.choice(names)] if rnd.random() < 0.5 else gen_content(rnd, dst[-1])
+            ops.append(["write", list(dst), data.decode("latin-1")])
+            d[dst] = data
+        elif names:
+            src = rnd.choice(names)
+            ops.append(["delete", list(src)])
+            del d[src]
+    return ops
+
+
+def mutate_files(d, ops):
+    d = dict(d)
+    for op in ops:
+        if op[0] in ("copy", "move"):
+            d[tuple(op[2])] = d[tuple(op[1])]
+            if op[0] == "move":
+                del d[tuple(op[1])]
+        elif op[0] == "write":
+            d[tuple(op[1])] = op[2].encode("latin-1")
+        elif op[0] == "delete":
+            del d[tuple(op[1])]
+    return d
+
+
+def apply_mutations_fs(root, ops):
+    for op in ops:
+        if op[0] in ("copy", "move"):
+            src, dst = os.path.join(root, *op[1]), os.path.join(root, *op[2])
+            if op[0] == "copy":
+                shutil.copyfile(src, dst)
+            else:
+                os.rename(src, dst)
+        elif op[0] == "write":
+            with open(os.path.join(root, *op[1]), "wb") as f:
+                f.write(op[2].encode("latin-1"))
+        elif op[0] == "delete":
+            os.unlink(os.path.join(root, *op[1]))
+
+
+def as_cached_report(codebase):
+    """the first scan's result the way the next `codelimit scan` gets it back: aggregated, written by
+    ReportWriter, read by ReportReader"""
+    from codelimit.common.report.Report import Report
+    try:
+        from codelimit.common.report.ReportWriter import ReportWriter
+        from codelimit.common.report.ReportReader import ReportReader
+        codebase.aggregate()
+        r = ReportReader.from_json(ReportWriter(Report(codebase)).to_json())
+        if r is not None:
+            return r
+    except Exception:  # noqa: BLE001  (changed code: fall back to the object itself)
+        pass
+    return Report(codebase)
 
 
 # ------------------------------------------------------------------ exclusion patterns (6 unambiguous classes)
@@ -249,7 +427,10 @@ def gen_patterns(rnd, tree=None):
             # "/name": only the top-level entry of that name (seeded change C11-4: pruning directories by
             # their bare name also drops a same-named directory deeper in the tree); names are taken from
             # ANY level of a path so that the non-matching deeper occurrence exists
-            if comps and rnd.random() < 0.5 and len(comps) > 2:
+            deeper = sorted({c for f in vis for c in f[1:-1] if c not in PINNED_BUILTIN})     # directory names below the top level
+            if deeper and rnd.random() < 0.6:
+                out.append("/" + rnd.choice(deeper))
+            elif comps and rnd.random() < 0.5 and len(comps) > 2:
                 out.append("/" + "/".join(comps[:2]))
             else:
                 out.append("/" + (rnd.choice(comps) if comps else rnd.choice(PLAIN_DIRS)))
@@ -427,6 +608,12 @@ def read_path(ws, i):
 def run_scan(path_arg):
     """real `scan_path(Path(path_arg))` with `_analyze_file` wrapped -> (ordered entries, analysed)
     entries: [(key, language, checksum, [(name, sl, sc, el, ec, value)])]"""
+    entries, analysed, _cb = run_scan_cb(path_arg)
+    return entries, analysed
+
+
+def run_scan_cb(path_arg, cached_report=None):
+    """as run_scan, optionally with a report of an earlier scan handed back in; also returns the Codebase"""
     from pathlib import Path
     from codelimit.common import Scanner
     analysed = []
@@ -438,14 +625,14 @@ def run_scan(path_arg):
     Scanner._analyze_file = wrapped
     try:
         with contextlib.redirect_stdout(io.StringIO()):
-            cb = Scanner.scan_path(Path(path_arg))
+            cb = Scanner.scan_path(Path(path_arg), cached_report) if cached_report is not None else Scanner.scan_path(Path(path_arg))
     finally:
         Scanner._analyze_file = orig
     entries = []
     for k, e in cb.files.items():
         ms = [(m.unit_name, m.start.line, m.start.column, m.end.line, m.end.column, m.value) for m in e.measurements()]
         entries.append((k, e.language, e.checksum(), ms, e.path, e.loc))
-    return entries, analysed
+    return entries, analysed, cb
 
 
 def analyse_directly(path, name):
